@@ -429,6 +429,9 @@ struct TypedGen {
   bool features[8] = {};              // 0 call, 1 tuple-pattern, 2 enum-decl, 3 recursion, 4 imperative, 5 filter, 6 lazy global, 7 debool
   int ops = 0, binders = 0;
   std::string currentFunc;            // while generating a function body
+  bool optConstant = true;            // context may contain the integer-like constant set C1
+  bool optDerived = true;             // context may contain derived globals that carry data directly (D..)
+  int optMinBase = 0;                 // minimal number of elements of a base set
 
   explicit TypedGen(pbt::Ctx& ctx) : c(ctx) {}
 
@@ -460,16 +463,16 @@ struct TypedGen {
     const int nb = c.ipick(1, 2);
     for (int i = 1; i <= nb; ++i) {
       Global g; g.name = "X" + std::to_string(i); g.isBase = true; g.type = Ty::Set(Ty::Base(g.name));
-      std::vector<Val> es; const int n = c.ipick(0, 4); for (int k = 1; k <= n; ++k) es.push_back(Val::Int(k));
+      std::vector<Val> es; const int n = c.ipick(optMinBase, 4); for (int k = 1; k <= n; ++k) es.push_back(Val::Int(k));
       g.value = Val::Set(es); G.globals.push_back(g);
     }
-    if (c.chance(1, 2)) {
+    if (optConstant && c.chance(1, 2)) {
       Global g; g.name = "C1"; g.isBase = true; g.integral = true; g.type = Ty::Set(Ty::Base("C1"));
       std::vector<Val> es; const int n = c.ipick(1, 4); for (int k = 0; k < n; ++k) es.push_back(Val::Int(c.pick(0, 6)));
       g.value = Val::Set(es); G.globals.push_back(g);
     }
     // element-typed globals (terms like D7:==debool(...) in real schemas) so that elements of nominal bases have names
-    for (int i = 1; i <= nb; ++i) {
+    for (int i = 1; optDerived && i <= nb; ++i) {
       const Global& b = G.globals[static_cast<size_t>(i - 1)];
       if (b.value.items.empty() || !c.chance(3, 4)) continue;
       Global g; g.name = "D" + std::to_string(6 + i); g.type = Ty::Base(b.name); g.value = c.oneof(b.value.items); G.globals.push_back(g);
@@ -479,7 +482,7 @@ struct TypedGen {
       Global g; g.name = "S" + std::to_string(i); g.type = Ty::Set(randType(2)); g.value = randValue(g.type, 4); G.globals.push_back(g);
     }
     // derived globals with data, some in lazy constructions
-    const int nd = c.ipick(0, 3);
+    const int nd = optDerived ? c.ipick(0, 3) : 0;
     for (int i = 1; i <= nd; ++i) {
       Global g; g.name = "D" + std::to_string(i);
       const int kind = c.ipick(0, 3);
